@@ -41,6 +41,6 @@ PROPS = {
     "C13": mk([("mutex", None)]),
     "C14": mk([("mutex", None), ("rw", None), ("sem", 1)]),
     "C15": mk([("mutex", None), ("rw", None), ("sem", 2)]),
-    "C16": mk([]),
+    "C16": mk([], ties=["Mutex", "Raw", "RwLock", "RwFutures", "Semaphore", "OnceCell", "Barrier"]),
     "C17": mk([("mutex", None), ("rw", None), ("sem", 1), ("once", None), ("bar", 2)]),
 }
